@@ -1,7 +1,7 @@
 #!/bin/sh
 # Builds the driver from files on disk and warms the build cache for the harness (offline).
 set -e
-cd /verif
+cd "$(dirname "$0")"
 export GOFLAGS=-mod=mod GOPROXY=off GOSUMDB=off GOTOOLCHAIN=local
 mkdir -p bin evidence replays .work
 go build -o bin/vcheck ./cmd/vcheck
